@@ -177,6 +177,8 @@ def mk(op, *args):
                 return const(r)
             except Exception:  # noqa
                 pass
+    if op == "not" and len(args) == 1 and isinstance(args[0], T) and args[0].op == "not":
+        return args[0].args[0]  # double negation (if not c: B else: A)
     if op == "gt":  # canonical orientation of comparisons: a > b is stored as b < a
         return mk("lt", args[1], args[0])
     if op == "ge":
